@@ -170,6 +170,10 @@ class ExprMixin:
         ):
             yield V(REAL, self.float_max), st
             return
+        if isinstance(e.value, ast.Name) and e.value.id not in st.env and (self.reg.class_for(self.file, e.value.id) or e.value.id in self.reg.classes):
+            ck = self.reg.class_for(self.file, e.value.id) or e.value.id
+            yield V(FN, FuncRef("classattr", cls=ck, name=e.attr)), st
+            return
         if isinstance(e.value, ast.Name) and e.value.id not in st.env and e.value.id in self.module_imports:
             yield V(FN, FuncRef("modattr", mod=e.value.id, name=e.attr)), st
             return
@@ -196,7 +200,20 @@ class ExprMixin:
         i = ops.to_int_term(idx)
         if check:
             self.oblige(st, "safe", "index", z3.And(i >= -n, i < n), node, exc="IndexError")
-        return z3.If(i < 0, i + n, i) if not (z3.is_int_value(i) and i.as_long() >= 0) else i
+        if z3.is_int_value(i):
+            return i if i.as_long() >= 0 else n + i
+        isimp = z3.simplify(i)
+        if z3.is_int_value(isimp):
+            return isimp if isimp.as_long() >= 0 else n + isimp
+        if getattr(st, "spec", False):
+            # spec clauses index with non-negative terms (negative literals handled above); keeping the index
+            # free of if-then-else keeps quantified clauses usable as E-matching triggers
+            return i
+        if self.proves(st, i >= 0):
+            return i
+        if self.proves(st, i < 0):
+            return i + n
+        return z3.If(i < 0, i + n, i)
 
     def ev_Subscript(self, e, st):
         for obj, s in self.ev(e.value, st):
@@ -583,10 +600,12 @@ class ExprMixin:
         if conds:
             sub.assume(z3.And(conds))
         self.in_comprehension += 1
+        self.comp_oracle_stack.append([])
         try:
             elt = self.ev_pure(e.elt, sub, allow_oracle=True, index=k)
         finally:
             self.in_comprehension -= 1
+            oracle_consts = self.comp_oracle_stack.pop()
         # facts learned about the element (callee ensures), universally quantified over k
         facts = sub.pc[base_pc + (1 if conds else 0) :]
         if elt.kind in (NONE, FN):
@@ -594,7 +613,6 @@ class ExprMixin:
         ek = elt.kind
         et = self.to_term(elt, ek)
         guard = z3.And(0 <= k, k < n)
-        oracle_consts = getattr(sub, "comp_oracles", [])
         # adopt heap changes made by oracle calls (e.g. rng ghost) -- only ghost havoc is allowed
         if sub.sig() != base_sig:
             st.heap = sub.heap
